@@ -6,7 +6,7 @@ META = {
 FUNCTIONS = ['lentil.wavefront.Wavefront.field#1', 'lentil.wavefront.Wavefront.field#2', 'lentil.wavefront.Wavefront.field#3',
              'lentil.wavefront.Wavefront.intensity#1', 'lentil.wavefront.Wavefront.intensity#2', 'lentil.wavefront.Wavefront.intensity#3',
              'lentil.wavefront.Wavefront.insert#1', 'lentil.wavefront.Wavefront.insert#2', 'lentil.wavefront.Wavefront.insert#3',
-             'lentil.plane._mul_pixelscale',
+             'lentil.plane._mul_pixelscale', 'lentil.plane.Plane.__init__',
              'lentil.plane.Plane.multiply#arrays', 'lentil.plane.Plane.multiply#scalar-amplitude',
              'lentil.plane.Plane.multiply#scalar-opd', 'lentil.plane.Plane.multiply#two-fields',
              'lentil.plane.Plane.multiply#two-segments', 'lentil.plane.Plane.multiply#two-segments-scalars', 'lentil.plane.Plane.multiply#default-plane',
